@@ -74,6 +74,7 @@ type Interp struct {
 	solver *Solver
 
 	rand     *rand.Rand // non-nil: random-concrete mode (translator validation)
+	lastModel map[string]uint64
 	objNames map[*Value]string
 	ptrIDs   map[*Value]int
 	allocs   []*Term
